@@ -246,33 +246,39 @@ def skipWhile (c : Nat) : Nat → List Nat → Nat → Nat
 def anyNonZero (s : List Nat) (start stop : Nat) : Bool :=
   ((s.take stop).drop start).any (· != Ch.zero)
 
-/-- `roundStringNumber`; returns the stream, the new `index` and `power_increased`. -/
-def roundStringNumber (start : Nat) (s : List Nat) (index : Nat) (roundUp : Bool) : M (List Nat × Nat × Bool) := do
+/-- the test of `roundStringNumber`: the sticky scan of the lower digits, the rounding digit against '5',
+and for an exact tie the parity of the next digit (when there is one).  `true` = increment. -/
+def roundTest (start : Nat) (s : List Nat) (index : Nat) (roundUp : Bool) : M Bool := do
   let roundUp := roundUp || anyNonZero s start index
   let d ← rdAt s index
-  let index := index + 1
   let tieUp ←
     if d = Ch.five ∧ !roundUp then
-      (if index < s.length then do
-        let nx ← rdAt s index
+      (if index + 1 < s.length then do
+        let nx ← rdAt s (index + 1)
         pure (decide ((nx - Ch.zero) % 2 = 1))
        else pure false)
     else pure false
-  let round := decide (Ch.five < d) || (decide (d = Ch.five) && (roundUp || tieUp))
-  if round then
-    -- `number` and `index` advance together from here
-    let j := skipWhile Ch.nine s.length s index
-    if s.length ≤ j then
-      pure (s ++ [Ch.one], j, true)                -- `number > last`: the carry digit is appended
+  pure (decide (Ch.five < d) || (decide (d = Ch.five) && (roundUp || tieUp)))
+
+/-- the `if (round) { … }` block of `roundStringNumber` (`index` is already past the rounding digit;
+`number` and `index` advance together over the nines) -/
+def roundCarry (start : Nat) (s : List Nat) (index : Nat) : M (List Nat × Nat × Bool) :=
+  let j := skipWhile Ch.nine s.length s index
+  if s.length ≤ j then
+    pure (s ++ [Ch.one], j, true)                -- `number > last`: the carry digit is appended
+  else do
+    let dj ← rdAt s j
+    if dj = Ch.nine then do
+      let s ← wrAt start s j Ch.one
+      pure (s, j, true)
     else do
-      let dj ← rdAt s j
-      if dj = Ch.nine then do
-        let s ← wrAt start s j Ch.one
-        pure (s, j, true)
-      else do
-        let s ← wrAt start s j (dj + 1)
-        pure (s, j, false)
-  else pure (s, index, false)
+      let s ← wrAt start s j (dj + 1)
+      pure (s, j, false)
+
+/-- `roundStringNumber`; returns the stream, the new `index` and `power_increased`. -/
+def roundStringNumber (start : Nat) (s : List Nat) (index : Nat) (roundUp : Bool) : M (List Nat × Nat × Bool) := do
+  let round ← roundTest start s index roundUp
+  if round then roundCarry start s (index + 1) else pure (s, index + 1, false)
 
 /-- the zero-restoring loop `while (zeros != 0) { --index; storage[index] = '0'; --zeros; }` -/
 def restoreZeros (start : Nat) : Nat → List Nat → Nat → M (List Nat × Nat)
